@@ -1,6 +1,9 @@
 package checks
 
-import "verif/engine"
+import (
+	"verif/engine"
+	"verif/gen"
+)
 
 var declsHarness = []HarnessFile{
 	{RepoDir: ".", Pkg: "goose", Src: "goose/zz_verif_decls.go"},
@@ -16,6 +19,13 @@ func init() {
 	big := engine.Options{Budget: 5_000_000, MaxPaths: 3_000_000}
 	Register(&Check{
 		ID:        "C04",
+		Custom: func(ctx *RunCtx) error {
+			// reference-site recording and naming: Coq's scoping rule applied to the emitted files
+			if err := tvRunOpts(ctx, gen.DepOrder(ctx.TierN()), tvOpts{Mode: "subset", Census: "order"}); err != nil {
+				return err
+			}
+			return tvRunOpts(ctx, gen.Subset(ctx.TierN()), tvOpts{Mode: "subset", Census: "order"})
+		},
 		Level:     "model_checking",
 		Patterns:  []string{"."},
 		Harness:   declsHarness,
@@ -32,6 +42,14 @@ func init() {
 	})
 	Register(&Check{
 		ID:        "C07",
+		Custom: func(ctx *RunCtx) error {
+			// totality on the generated corpora: no crash, every declaration emitted or rejected with a
+			// structured, located error of a documented category
+			if err := tvRunOpts(ctx, gen.Lookalikes(ctx.TierN()), tvOpts{Mode: "lookalike", Census: "errors"}); err != nil {
+				return err
+			}
+			return tvRunOpts(ctx, gen.Subset(ctx.TierN()), tvOpts{Mode: "lookalike", Census: "errors"})
+		},
 		Level:     "model_checking",
 		Patterns:  []string{"."},
 		Harness:   declsHarness,
